@@ -37,7 +37,8 @@ def case_st(draw):
     impl = draw(st.sampled_from(['thread', 'async']))
     L = draw(st.sampled_from(LIMITS))
     carrier = draw(st.sampled_from(['post', 'post', 'post-many', 'ws-frame', 'ws-frame-upgraded',
-                                    'upg-first', 'upg-second', 'upg-real-handshake']))
+                                    'upg-first', 'upg-second', 'upg-real-handshake',
+                                    'post-to-ws-first', 'post-to-upgraded']))
     big = 10 * L if L < 1000000 else L + 4096
     size = draw(st.sampled_from([L - 2, L - 1, L, L, L + 1, L + 2, 0, 1, big]))
     size = max(0, size)
@@ -45,6 +46,9 @@ def case_st(draw):
         else 'text'
     case = {'impl': impl, 'limit': L, 'carrier': carrier, 'size': size,
             'binary': kind == 'binary', 'b64': kind == 'b64text'}
+    if carrier in ('post-to-ws-first', 'post-to-upgraded'):
+        case['declared'] = draw(st.sampled_from(['equal', 'over-limit']))
+        case['chunks'] = 1
     if carrier == 'post':
         case['declared'] = draw(st.sampled_from(['equal', 'equal', 'equal', 'smaller', 'larger',
                                                  'over-limit', 'at-limit']))
@@ -69,11 +73,11 @@ def check_case(case, ctx=None):
                      'async_handlers': False})
     w = ex.world
     try:
-        first = 'websocket' if carrier == 'ws-frame' else 'polling'
+        first = 'websocket' if carrier in ('ws-frame', 'post-to-ws-first') else 'polling'
         ex.do({'op': 'open', 'transport': first})
         s = ex.sessions[0]
         sid = ex.sid_of(s)
-        if carrier == 'ws-frame-upgraded':
+        if carrier in ('ws-frame-upgraded', 'post-to-upgraded'):
             if L < 6:
                 return          # the probe itself does not fit: no upgraded session exists
             ex.do({'op': 'upg_connect', 's': 0})
@@ -86,7 +90,32 @@ def check_case(case, ctx=None):
         msgs = lambda: [a for (_, e, _, a) in w.app_log.events[n_ev:] if e == 'message']  # noqa
         disc = lambda: [a for (_, e, _, a) in w.app_log.events[n_ev:] if e == 'disconnect']  # noqa
         trig = '%s|size-limit=%s' % (carrier, rel(case.get('size'), L))
-        if carrier == 'post':
+        if carrier in ('post-to-ws-first', 'post-to-upgraded'):
+            # a POST body over the limit ends the session it names - also one that is on WebSocket
+            size = case['size']
+            body = ascii_packet(size).encode() if size >= 1 else b''
+            dec = size if case['declared'] == 'equal' else L + 1
+            r = w.http('POST', 'transport=polling&EIO=4&sid=' + sid, body=body, declared=dec,
+                       headers=[('Host', 'localhost')])
+            w.settle()
+            trig = '%s|declared-limit=%s' % (carrier, rel(dec, L))
+            if dec > L:
+                if msgs():
+                    raise V(impl, 'oversize-body-reached-handler', trig,
+                            'declared %d > limit %d but message events %r' % (
+                                dec, L, [str(m)[:20] for m in msgs()]), rep)
+                if not r.done or r.status != 400:
+                    raise V(impl, 'oversize-post-not-400', trig,
+                            'declared %d > limit %d: done=%s status=%s' % (dec, L, r.done, r.status),
+                            rep)
+                if not disc():
+                    c = w.call('transport', sid)
+                    w.settle()
+                    if c.exc is None:
+                        raise V(impl, 'oversize-post-did-not-end-session', trig,
+                                'declared %d > limit %d, the WebSocket session is still up' % (
+                                    dec, L), rep)
+        elif carrier == 'post':
             size = case['size']
             body = ascii_packet(size).encode() if size >= 1 else b''
             dec = {'equal': size, 'smaller': max(0, size - 1), 'larger': size + 3,
